@@ -1,12 +1,16 @@
-(* C14 - the compression glue of laspy around an ABSTRACT LAZ backend.  Definitions only (proofs: Proofs/LazProofs.v).
+(* C14 - the compression glue of laspy around an ABSTRACT LAZ backend.  Definitions only (proofs: Proofs/LazProofs.v,
+   LazBackendProofs.v, LazContract.v, LazWitness.v).
 
    What is modelled: the compress decision (functions translated from LasWriter.__init__, open_las, LasData.write:
    Gen/GenC14.v), the compressed bit (Gen/GenFormatBits.v), the travel of the LasZip record through VLR lists
    (writer / reader / re-writing, with the shape of the statements checked by the translator), and the layout of a
    compressed file as the writer, the reader and the appender of laspy produce / consume it: the header codec and the
    (E)VLR codec of Model/Las.v around an opaque payload produced by the backend.
-   What is NOT modelled: the codec itself.  Section Backend takes the backend as variables; Proofs/LazProofs.v states the
-   backend contract as hypotheses of a closed Section, so every theorem is universally quantified over conforming backends. *)
+   What is NOT modelled: the codec itself.  Section Backend takes the backend as variables; `conforming` (below) is the
+   backend contract; Proofs/LazContract.v uses its clauses as hypotheses of a closed Section, so every theorem is
+   universally quantified over conforming backends.  A real stream may hold absolute file offsets (the chunk table
+   offset): a backend here is the backend specialised to the data offset of the file at hand, which is one and the same
+   for all the files a single theorem speaks about. *)
 From Coq Require Import String.
 From Coq Require Import ZArith List Bool.
 From LasV Require Import Lib.Base Lib.Layout Gen.GenHeaderLayout Gen.GenFormatBits Gen.GenDims Gen.GenC14 Model.Las Model.LasSpec.
